@@ -325,6 +325,7 @@ func runProperty(prop, tier, repo, verif string, opts RunOpts, workers int, noRe
 		return 2
 	}
 	opts.FrameCheck = true
+	opts_solver = opts.SolverBin
 	results := runMany(P, hs, opts, workers)
 
 	known := loadKnown(verif)
@@ -506,6 +507,8 @@ func sameLog(a, b []string) bool {
 	return true
 }
 
+var opts_solver = "z3"
+
 func writeEvidence(P *Program, prop, tier string, results []*HarnessResult, validated, nvio int, inconclusive, knownLines []string, wall float64) {
 	seed := 0
 	fmt.Sscan(os.Getenv("VERIF_SEED"), &seed)
@@ -540,7 +543,7 @@ func writeEvidence(P *Program, prop, tier string, results []*HarnessResult, vali
 	}
 	sort.Strings(fl)
 	al := []string{
-		"trusted: go/ssa (x/tools v0.29.0) lowering, this executor (validated per run by native replay of witness paths), z3",
+		"trusted: go/ssa (x/tools v0.29.0) lowering, this executor (validated per run by native replay of witness paths), the SMT solver (z3 5.1.0 by default)",
 		"bounded: every loop is unwound at most `unwind` times per frame; exceeding it is reported, never truncated",
 	}
 	for a := range assumes {
@@ -571,7 +574,7 @@ func writeEvidence(P *Program, prop, tier string, results []*HarnessResult, vali
 			"rule":                          "evaluations = symbolic paths explored (each stands for all inputs satisfying its path condition); distinct_nontrivial = proof obligations (implicit panic checks + harness assertions) whose formula did not fold to a constant and were sent to the solver",
 			"obligations":                   obl,
 			"discharged":                    obl - nvio,
-			"solver":                        map[string]interface{}{"queries": queries, "unsat": unsat, "sat": sat, "unknown": unknown, "seconds": solverS, "binary": "z3 (one `z3 -in` per harness, push/pop)"},
+			"solver":                        map[string]interface{}{"queries": queries, "unsat": unsat, "sat": sat, "unknown": unknown, "seconds": solverS, "binary": opts_solver + " (one long-lived process per executor instance; every query self-contained after (reset))"},
 			"functions_encoded":             fl,
 			"harnesses":                     results,
 			"inconclusive":                  dedup(inconclusive),
